@@ -174,13 +174,22 @@ func (c *Ctx) Violation(key, what string, replay any) {
 	if c.violKeys[key] > 3 || len(c.violKeys) > c.maxViolPrint {
 		return // same class already reported with replay files
 	}
-	dir := filepath.Join(c.Root, "evidence", "replays")
+	dir := filepath.Join(c.evidenceDir(), "replays")
 	_ = os.MkdirAll(dir, 0o755)
 	path := filepath.Join(dir, fmt.Sprintf("%s-%s-%d.json", c.ID, sanitize(key), c.violKeys[key]))
 	b, _ := json.MarshalIndent(map[string]any{"property": c.ID, "key": key, "what": what, "replay": replay, "seed": c.Seed, "tier": c.Tier}, "", " ")
 	_ = os.WriteFile(path, b, 0o644)
 	fmt.Printf("VIOLATION property=%s replay=%s\n", c.ID, path)
 	fmt.Printf("  %s: %s\n", key, what)
+}
+
+// evidenceDir is /verif/evidence, or $VERIF_EVIDENCE_DIR when the check is run against a scratch
+// worktree (binding self-tests, seeded changes) so that the committed evidence is not overwritten.
+func (c *Ctx) evidenceDir() string {
+	if d := os.Getenv("VERIF_EVIDENCE_DIR"); d != "" {
+		return d
+	}
+	return filepath.Join(c.Root, "evidence")
 }
 
 func sanitize(s string) string {
@@ -233,8 +242,8 @@ func (c *Ctx) Finish() {
 		"violations":  c.violations,
 	}
 	b, _ := json.MarshalIndent(ev, "", " ")
-	_ = os.MkdirAll(filepath.Join(c.Root, "evidence"), 0o755)
-	if err := os.WriteFile(filepath.Join(c.Root, "evidence", c.ID+".json"), b, 0o644); err != nil {
+	_ = os.MkdirAll(c.evidenceDir(), 0o755)
+	if err := os.WriteFile(filepath.Join(c.evidenceDir(), c.ID+".json"), b, 0o644); err != nil {
 		Infra("write evidence: %v", err)
 	}
 	_ = os.RemoveAll(c.Work)
